@@ -349,6 +349,8 @@ func (mab *memoryAddrBook) ConsumePeerRecord(recordEnvelope *record.Envelope, tt
 	mab.mu.Lock()
 	defer mab.mu.Unlock()
 
+	mab.expireAddrsForPeerUnlocked(rec.PeerID)
+
 	// ensure seq is greater than or equal to the last received
 	lastState, found := mab.signedPeerRecords[rec.PeerID]
 	if found && lastState.Seq > rec.Seq {
@@ -417,6 +419,19 @@ func (mab *memoryAddrBook) maybeDeleteSignedPeerRecordUnlocked(p peer.ID) {
 	}
 }
 
+// expireAddrsForPeerUnlocked drops p's addrs that have expired but have not been
+// garbage collected yet (and p's signed record if none is left), so that whether
+// a write sees them does not depend on when gc last ran.
+func (mab *memoryAddrBook) expireAddrsForPeerUnlocked(p peer.ID) {
+	now := mab.clock.Now()
+	for _, a := range mab.addrs.Addrs[p] {
+		if a.ExpiredBy(now) {
+			mab.addrs.Delete(a)
+		}
+	}
+	mab.maybeDeleteSignedPeerRecordUnlocked(p)
+}
+
 // numUnconnectedAddrsForPeerUnlocked returns how many of p's stored addrs
 // are not held by a live connection.
 func (mab *memoryAddrBook) numUnconnectedAddrsForPeerUnlocked(p peer.ID) int {
@@ -458,6 +473,7 @@ func (mab *memoryAddrBook) addAddrs(p peer.ID, addrs []ma.Multiaddr, ttl time.Du
 	mab.mu.Lock()
 	defer mab.mu.Unlock()
 
+	mab.expireAddrsForPeerUnlocked(p)
 	mab.addAddrsUnlocked(p, addrs, ttl)
 }
 
@@ -532,6 +548,8 @@ func (mab *memoryAddrBook) SetAddrs(p peer.ID, addrs []ma.Multiaddr, ttl time.Du
 
 	defer mab.maybeDeleteSignedPeerRecordUnlocked(p)
 
+	mab.expireAddrsForPeerUnlocked(p)
+
 	exp := mab.clock.Now().Add(ttl)
 	for _, addr := range addrs {
 		addr, addrPid := peer.SplitAddr(addr)
@@ -585,6 +603,8 @@ func (mab *memoryAddrBook) UpdateAddrs(p peer.ID, oldTTL time.Duration, newTTL t
 	defer mab.mu.Unlock()
 
 	defer mab.maybeDeleteSignedPeerRecordUnlocked(p)
+
+	mab.expireAddrsForPeerUnlocked(p)
 
 	exp := mab.clock.Now().Add(newTTL)
 	for _, a := range mab.addrs.Addrs[p] {
